@@ -102,9 +102,11 @@ def make_setup(case):
         pdts[(pdts.index("bfloat16") + 1) % len(shapes)] = "float32"
         if len(set(pdts)) < 2:
             pdts = None
+    # a parameter that never receives a gradient may just as well be frozen (requires_grad=False) inside a trainable group
+    frozen = [j for j in range(len(shapes)) if not any(pres[t_][j] for t_ in range(T))] if rnd.random() < 0.6 else []
     # the default num_trainers_per_group=-1 means "the whole replicate group"
     g_arg = -1 if (replicated and Gs == R and rnd.random() < 0.5) else Gs
-    return {"G_arg": g_arg, "pdts": pdts, "mode": mode, "R": R, "S": Sn, "G": Gs, "comm": comm, "communicate_params": cp, "cfg": cfg, "shapes": shapes, "ranges": ranges, "cut_kind": cut_kind, "T": T, "presence_kind": pk, "presence": pres, "grad_scale": gs, "exact": exact, "grad_kind": rnd.choice(["dense", "dense", "sparse"])}
+    return {"frozen": frozen, "G_arg": g_arg, "pdts": pdts, "mode": mode, "R": R, "S": Sn, "G": Gs, "comm": comm, "communicate_params": cp, "cfg": cfg, "shapes": shapes, "ranges": ranges, "cut_kind": cut_kind, "T": T, "presence_kind": pk, "presence": pres, "grad_scale": gs, "exact": exact, "grad_kind": rnd.choice(["dense", "dense", "sparse"])}
 
 
 def _flat_ranges(shapes, Sn):
@@ -214,6 +216,11 @@ def rank_program(ds, torch, S, seed, rank, world):
                 twin_items.append((i, None, torch.nn.Parameter(lt.clone())))
         dcfg = ds.FullyShardShampooConfig() if mode == "fully" else HybridShardShampooConfig(device_mesh=mesh, **comm_kw)
         local = lambda p: p.to_local()  # noqa
+    for j in S.get("frozen", ()):
+        params[j].requires_grad_(False)
+        for (i, _, q) in twin_items:
+            if i == j:
+                q.requires_grad_(False)
     opt = G.build_optimizer(ds, torch, cfg, params, distributed_config=dcfg)
     twin = G.build_optimizer(ds, torch, cfg, [q for _, _, q in twin_items]) if twin_items else None
     hist = {"shards": [], "bitwise_steps": 0, "tolerance_steps": 0, "srank": srank}
@@ -309,7 +316,7 @@ def run_sharded(case, prop_id):
     S = make_setup(case)
     W = S["R"] * S["S"]
     counters = {"evals": 0, "bitwise_steps": 0, "tolerance_steps": 0, "replica_comparisons": 0, "collectives_logged": 0, "group_creations_logged": 0, "shards_compared": 0, "set_interleavings": []}
-    desc = {k: S[k] for k in ("G_arg", "pdts", "mode", "R", "S", "G", "comm", "communicate_params", "cfg", "shapes", "ranges", "cut_kind", "presence_kind", "presence", "T")}
+    desc = {k: S[k] for k in ("frozen", "G_arg", "pdts", "mode", "R", "S", "G", "comm", "communicate_params", "cfg", "shapes", "ranges", "cut_kind", "presence_kind", "presence", "T")}
     ledger_excerpt = None
     for il in range(case["interleavings"]):
         world = ranksim.World(W, interleave_seed=hash((tuple(map(str, case["seed"])), il)) & 0xFFFFFF)
